@@ -70,6 +70,7 @@ class CommunicationType:
         if isinstance(val, bytes):
             val = struct.unpack('B', val)[0]
         val = int(val)
+        tools.validate_int(val, min=0, max=0xFF, name='communication type')
         subnet = (val & 0xF0) >> 4
         normal_msg = True if val & 1 > 0 else False
         network_management_msg = True if val & 2 > 0 else False
